@@ -54,6 +54,8 @@ var specs = []spec{
 	{pkg: "x/rewards/keeper", fn: "SplitTotalAmountPerEpoch", lean: "splitTotalAmountPerEpoch"},
 	{pkg: "x/liquidationsV2/types", fn: "GetSliceStartEndForLiquidations", lean: "sliceStartEndV2"},
 	{pkg: "x/liquidation/types", fn: "GetSliceStartEndForLiquidations", lean: "sliceStartEndV1"},
+	{pkg: "x/market/keeper", recv: "Keeper", fn: "CalculateTwa", lean: "calculateTwa", drop: []string{"ctx"},
+		skip: []string{"ctx.EventManager().EmitEvents("}, flat: map[string][]string{"twa": {"Twa", "PriceValue"}}},
 	{pkg: "x/auction/keeper", fn: "Multiply", lean: "auctionMultiply"},
 	{pkg: "x/auction/keeper", recv: "Keeper", fn: "getOutflowTokenInitialPrice", lean: "auctionInitialPrice"},
 	{pkg: "x/auction/keeper", recv: "Keeper", fn: "getOutflowTokenEndPrice", lean: "auctionEndPrice"},
